@@ -87,6 +87,22 @@ struct C01 : Check {
 		int nops = (int) r.range(1, 4);
 		bool edited = false;
 		for (int i = 0; i < nops; i++) {
+			if (r.chance(1, 8)) {
+				// another process rewrites F (shorter, longer or EMPTY) and the user reloads it: the buffer must be
+				// that file, also when nothing at all can be read from it
+				std::string nd;
+				int w = (int) r.below(4);
+				if (w == 1) nd = gen_line(r, r.range(1, 40), A_LOWER) + "\n";
+				else if (w == 2) nd = data + gen_line(r, r.range(1, 40), A_LOWER) + "\n";
+				else if (w == 3) nd = data.substr(0, data.size() / 2);
+				Step t; t.op = "touch"; t.path = "F"; t.data = nd; t.n1 = 0; t.meta = Json::obj(); t.meta.set("k", "touch");
+				p.steps.push_back(t);
+				Step e = ex_step(p, "e!"); e.meta = Json::obj(); e.meta.set("k", "open"); e.meta.set("now", nd);
+				p.steps.push_back(e);
+				nl = (long) file_lines(nd).size();
+				edited = false;
+				continue;
+			}
 			int k = (int) r.below(10);
 			Step s;
 			Json m = Json::obj();
@@ -200,6 +216,7 @@ struct C01 : Check {
 		bool opened_by_argv = c.plan.argv.size() > 3 || (c.plan.argv.size() > 2 && c.plan.argv.back() == "F");
 		if ((after == -1 && opened_by_argv) || (after >= 0 && c.plan.steps[(size_t) after].meta.str("k") == "open")) {
 			// right after the read: the buffer is the file split at newlines
+			if (after >= 0 && c.plan.steps[(size_t) after].meta.has("now")) f_at_open = c.plan.steps[(size_t) after].meta.str("now");
 			std::vector<std::string> want = file_lines(f_at_open);
 			c.compared();
 			c.count("reads_compared");
